@@ -21,7 +21,8 @@ use std::cell::Cell;
 use std::collections::HashMap;
 use std::sync::{Arc, Condvar, Mutex};
 use std::time::{Duration, Instant};
-use verif_harness::{hex, Rng};
+use verif_harness::l2::hex;
+use verif_harness::Rng;
 
 use verif_harness::l2 as md;
 use verif_harness::l2::{corpus, rt};
@@ -393,6 +394,7 @@ fn main() {
         cv: Condvar::new(),
     });
     cachelito_core::verif::install_hooks(Some(Arc::new(SchedHooks(ctl.clone()))));
+    verif_harness::l2::AGE_GRAIN.store(1000, std::sync::atomic::Ordering::Relaxed);
     let mode = args.get(1).map(|s| s.as_str()).unwrap_or("");
     if mode == "replay" {
         // replay file: the `P|…` line of the program and the `X|…sched=…` line of the run
@@ -488,6 +490,21 @@ fn main() {
                 prefix.clear();
             }
             reset_all(&fns);
+            // every other program with a TTL'd hot cache starts from EXPIRED entries (stored, then aged past the
+            // ttl through the verif hook), so that the expired-lookup path races with stores and other lookups
+            if pi % 2 == 0 {
+                if let Some(ttl) = fns[0].ttl {
+                    for j in 0..3 {
+                        let (n, ok) = det_val(fns[0].idx, j);
+                        md::rt::NEXT_TL.with(|x| x.set(Some(rt::Next { n, ok, len: 4 + (n % 5) as usize, ci: true, io: false })));
+                        let _ = corpus::CALLS[fns[0].idx](j);
+                    }
+                    md::rt::NEXT_TL.with(|x| x.set(None));
+                    cachelito_core::verif::age_global(&fns[0].name, (ttl + 1) * 1000);
+                    cachelito_core::stats_registry::reset(&fns[0].name);
+                }
+            }
+            let run_t0 = Instant::now();
             let r = run_once(&ctl, &progs, &prefix, &mut rrng, None);
             runs += 1;
             let sched: Vec<String> = r.sched.iter().map(|t| t.to_string()).collect();
@@ -517,7 +534,7 @@ fn main() {
                     let out = ep.exec(&op);
                     buf.push(format!("S|{}||{}", op, out));
                 }
-                if md::now_s() == s0 && t0.elapsed() < Duration::from_millis(80) {
+                if md::now_s() == s0 && run_t0.elapsed() < Duration::from_millis(700) {
                     for l in buf {
                         println!("{l}");
                     }
